@@ -6,6 +6,9 @@ impl Compiler {
     /// Use for function calls to direct imports.
     pub fn get_or_create_global_index(&mut self, name: &str) -> Result<u16> {
         let actual_name = self.resolve_global_name(name).to_string();
+        // the layout must carry the name the index was created under (callers record the
+        // name as written, which differs for imported and aliased symbols)
+        self.accessed_globals.insert(actual_name.clone());
         self.get_or_create_global_index_raw(&actual_name)
     }
 
